@@ -1788,6 +1788,18 @@ func (db *DB) dropAll() (func(), error) {
 	db.lock.Lock()
 	defer db.lock.Unlock()
 
+	// Drop the tables before the memtables (and their WAL files). The memtables hold the newest
+	// writes: if the process dies in the middle of DropAll, whatever is recovered from a remaining
+	// WAL is then still the latest value of its key. The other way round, a crash after the WALs
+	// were deleted and before the MANIFEST recorded the table deletions brought back the older
+	// versions stored in the tables.
+	y.VerifPoint("dropall.tree")
+	num, err := db.lc.dropTree()
+	if err != nil {
+		return resume, err
+	}
+	db.opt.Infof("Deleted %d SSTables. Now deleting value logs...\n", num)
+
 	// Remove inmemory tables. Calling DecrRef for safety. Not sure if they're absolutely needed.
 	db.mt.DecrRef()
 	for _, mt := range db.imm {
@@ -1798,13 +1810,6 @@ func (db *DB) dropAll() (func(), error) {
 	if err != nil {
 		return resume, y.Wrapf(err, "cannot open new memtable")
 	}
-
-	y.VerifPoint("dropall.tree")
-	num, err := db.lc.dropTree()
-	if err != nil {
-		return resume, err
-	}
-	db.opt.Infof("Deleted %d SSTables. Now deleting value logs...\n", num)
 
 	y.VerifPoint("dropall.vlog")
 	num, err = db.vlog.dropAll()
